@@ -56,6 +56,19 @@ pub fn events(case: &Value) -> Value {
     json!({"id": case["id"], "files": out})
 }
 
+/// Subcommand `build`: case {"id", "dir"}: chdir into the sandbox and call the build-script entry point
+/// BuildSystem::generate_at_build_time(), exactly as a src-tauri/build.rs would (configuration from typegen.json).
+pub fn build(case: &Value) -> Value {
+    let dir = case["dir"].as_str().expect("dir");
+    std::env::set_current_dir(dir).expect("chdir");
+    let r = tauri_typegen::BuildSystem::generate_at_build_time();
+    println!();
+    match r {
+        Ok(()) => json!({"id": case["id"], "ok": true}),
+        Err(e) => json!({"id": case["id"], "ok": false, "err": e.to_string()}),
+    }
+}
+
 fn main() {
-    tt_harness::dispatch(&[("events", events)]);
+    tt_harness::dispatch(&[("events", events), ("build", build)]);
 }
